@@ -147,8 +147,12 @@ m("m41","src/fs/path/mod.rs","""                p.set_extension(""); // restore 
                 None""",["C11"],"output name -> source lookup tries only foo.ext.txtpp")
 m("m_join_nl","src/core/execute/pp/mod.rs","""                let command = d.args.join(" ");""","""                let command = d.args.join("\n");""",["C17"],"run args joined with newline")
 
-m("m103","src/core/execute/mod.rs","""                    let _ = self.progress.add_total(directory.subdirs.len());
-                    for file in directory.files {""","""                    for file in directory.files {""",["C03","C04","C11"],"add_total not bumped for scanned sub-directories")
+m("m103","src/core/execute/mod.rs","""        let _ = self.progress.add_total(1);
+        let _ = self
+            .progress
+            .print_status(verbs::SCANNING""","""        let _ = self
+            .progress
+            .print_status(verbs::SCANNING""",["C03","C04","C11"],"add_total not bumped for scanned directories (re-based after the F5 fix, which moved the accounting into execute_directory)")
 m("m77","src/core/execute/mod.rs","""                Err(TryRecvError::Empty) => {
                     if self.progress.is_done() {
                         break;
